@@ -378,6 +378,8 @@ pub fn direct_oracle(line: &str, trace: &str) -> Vec<String> {
     // C10: as long as the sender has kept to the protocol (no abort, no contradictory continuation, no transfer beyond
     // the credit) every delivery is a well-formed message, however it was cut: recv() must not fail to decode it
     let mut peer_fault = false;
+    let mut credit_left: Option<i64> = steps.first().and_then(|s0| s0.split(",c=").nth(1)).and_then(|x| x.split(',').next()).and_then(|x| x.parse().ok());
+    let mut contradicted: Vec<u32> = Vec::new();
     let mut first_fields: Option<(String, String, String)> = None;
     for (i, e) in evs.iter().enumerate() {
         let st = steps.get(i + 1).cloned().unwrap_or("");
@@ -389,10 +391,17 @@ pub fn direct_oracle(line: &str, trace: &str) -> Vec<String> {
                 Some(ff) => {
                     if (f.0 != "-" && f.0 != ff.0) || (f.1 != "-" && f.1 != ff.1) || (f.2 != "-" && f.2 != ff.2) {
                         peer_fault = true;
+                        if let Ok(d) = ff.0.parse::<u32>() {
+                            contradicted.push(d);
+                        }
                     }
                 }
             }
             if field(&w, "ab") == "1" {
+                peer_fault = true;
+            }
+            // asking for rcv-settle-mode second on a link negotiated as first is the sender's fault
+            if field(&w, "rsm") == "1" && !link_second {
                 peer_fault = true;
             }
             if field(&w, "ab") == "1" || field(&w, "more") == "0" {
@@ -400,11 +409,48 @@ pub fn direct_oracle(line: &str, trace: &str) -> Vec<String> {
             }
         }
         for tok in st.split_whitespace() {
+            // C09: the credit we issued is honoured down to its last unit
+            if tok.starts_with("recv=ok(") {
+                if let Some(c) = credit_left.as_mut() {
+                    *c -= 1;
+                }
+            }
+            if tok.starts_with("recv=err:TransferLimitExceeded") && !peer_fault {
+                if let Some(c) = credit_left {
+                    if c >= 1 {
+                        v.push(format!("c09-limit-with-credit-left: recv() at step {} reports a transfer-limit violation although {} of the credit issued by the last flow is unused and the sender has kept to the protocol", i + 1, c));
+                    }
+                }
+            }
+            {
+                let mut rest_tok: &str = tok;
+                while let Some(pos) = rest_tok.find("F(") {
+                    let inner = &rest_tok[pos + 2..];
+                    let end = inner.find(')').unwrap_or(inner.len());
+                    for kv in inner[..end].split(',') {
+                        if let Some(c) = kv.strip_prefix("c=") {
+                            credit_left = c.parse().ok();
+                        }
+                    }
+                    rest_tok = &inner[end..];
+                }
+            }
             if let Some(err) = tok.strip_prefix("recv=err:") {
                 if err.starts_with("MessageDecode") && !peer_fault {
                     v.push(format!("c10-valid-message-undecodable: recv() at step {} failed with {} although every delivery so far was a well-formed message sent within the protocol", i + 1, err));
+                } else if !err.starts_with("TransferLimitExceeded") && !peer_fault {
+                    v.push(format!("c10-valid-delivery-refused: recv() at step {} failed with {} although every delivery so far was sent within the protocol (first frame with id, tag and format; later frames omit or repeat them)", i + 1, err));
                 }
                 peer_fault = true;
+            }
+            // a delivery with a contradictory continuation must be reported, not returned
+            if let Some(r) = tok.strip_prefix("recv=ok(") {
+                let did: Option<u32> = r.split(',').next().and_then(|x| x.strip_prefix("d=")).and_then(|x| x.parse().ok());
+                if let Some(d) = did {
+                    if contradicted.contains(&d) {
+                        v.push(format!("c10-contradiction-accepted: delivery {} had a continuation frame whose delivery-id, tag or format contradicts its first frame, yet recv() returned it", d));
+                    }
+                }
             }
         }
         match w[0] {
